@@ -26,4 +26,18 @@ def emptyPbProfile : Profile :=
 def shadowedCpuDoc : CpuDoc :=
   { big := true, w64 := true, period := 100, recs := [{ count := 1, addrs := [12800] }], eod := true, map := none }
 
+/-- witness of `C14/count/taken-for-concatenated-protobuf` (corpus/C14): a count profile named
+`H1H1` — `H` is the tag of time_nanos, seen twice — is refused as "concatenated profiles". -/
+def concatCountDoc : CountDoc :=
+  { pre := [], name := asc "H1H1", total := 3, width := 0, recs := [{ fill := [], n := 1, addrs := [1] }], post := [], map := none }
+
+def heapNamedThreadRec : ThreadRec :=
+  { id := 1, name := asc "heap profile: 1: 2 [3: 4] @ heap_v2/1", tid := 5,
+    body := .stack [{ blanks := 0, indent := 2, label := .none, addrs := [16], sym := none }] }
+
+/-- witness of `C14/thread/taken-for-heap` (corpus/C14): a threadz document starting directly
+with the header of a thread whose name reads as a heap profile header. -/
+def heapNamedThreadDoc : ThreadDoc :=
+  { pre := [], head := none, width := 0, recs := [heapNamedThreadRec], ending := .noStack 0 none }
+
 end PV.Legacy
